@@ -49,6 +49,9 @@ func unmarshalJSONRequest(b []byte, m *rscp.Message) error {
 			// check for data type in second element
 			if isDataType, dt := isJSONDataType(t[1]); isDataType {
 				m.DataType = *dt
+			} else if l == 3 {
+				// [tag, type, value]: the second element has to name a data type
+				return ErrInputInvalidTuple
 			} else {
 				// infer data type
 				m.DataType = m.Tag.DataType()
